@@ -1,4 +1,5 @@
 #!/bin/bash
+# NOTE: to stop a run, kill the python3 child (pkill -f "python3 -"), not only this shell.
 # Must-fail corpus: applies every patch of selftest/mutants (and seeded/*/patch.diff) to /repo's
 # working tree, runs the owning property's quick check, reverts, and records whether the
 # check reported a VIOLATION. Usage: tools/selftest.sh [ids...]  -> writes selftest/results.json
